@@ -409,7 +409,25 @@ func MapKeys[K comparable, V any](m map[K]V) []K {
 	// Go's own order is random: first make it canonical (sort by formatted key), then permute
 	// from the tape, so the order is a function of the tape only.
 	sortKeys(keys)
-	p := s.tape.Perm(len(keys))
+	var p []int
+	if len(keys) <= 24 {
+		p = s.tape.Perm(len(keys))
+	} else {
+		// a large map: one draw seeds the permutation (a draw per element makes code that ranges
+		// over a growing map quadratic in tape length); 0 is the canonical order
+		seed := s.tape.Intn(1 << 30)
+		p = make([]int, len(keys))
+		for i := range p {
+			p[i] = i
+		}
+		if seed != 0 {
+			r := NewRand(uint64(seed))
+			for i := 0; i < len(p)-1; i++ {
+				j := i + r.Intn(len(p)-i)
+				p[i], p[j] = p[j], p[i]
+			}
+		}
+	}
 	out := make([]K, len(keys))
 	for i, j := range p {
 		out[i] = keys[j]
